@@ -125,6 +125,35 @@ def make_process(pid, gtf, outdir, clean_start=False, with_mapper_caches=False, 
             res["index_path"] = idx
             with open(args.reference, "r") as f:
                 res["ref_end"] = f.read()
+        elif with_mapper_caches == "alignment":
+            # FASTQ mode: start-up of the run in its folder (what isoquant.check_and_load_args does for every new run), then the real
+            # DataSetReadMapper.map_reads with a stand-in for the aligner binary; afterwards the run opens the alignments it was given
+            import src.read_mapper as RM
+            aux = os.path.join(outdir, "OUT", "aux")
+            os.makedirs(aux, exist_ok=True)
+            fq = V + "data/reads1.fq"
+            sample = SimpleNamespace(file_list=[[fq]], prefix="OUT", aux_dir=aux, out_dir=os.path.join(outdir, "OUT"),
+                                     readable_names_dict={}, illumina_bam=None)
+            args.input_data = SimpleNamespace(samples=[sample], input_type="fastq")
+            args.resume = False
+            isoquant.remove_previous_run_locks(args)
+            args.index = V + "data/ref1.mmi"
+
+            def fake_align(aligner, fastq_file, annotation_file, a, label, out_dir):
+                bam = os.path.join(out_dir, "%s_reads1_%d.bam" % (label, os.getpid()))
+                with open(bam, "w") as f:
+                    f.write("bam-of:")
+                    f.flush()
+                    f.write(os.path.basename(fastq_file) + ";end")
+                return bam
+            RM.align_fasta = fake_align
+            RM.find_annotation = lambda aligner, a: None
+            mapper = RM.DataSetReadMapper.__new__(RM.DataSetReadMapper)
+            mapper.aligner = "minimap2"
+            data = RM.DataSetReadMapper.map_reads(mapper, args)
+            res["bam_path"] = data.samples[0].file_list[0][0]
+            with open(res["bam_path"], "r") as f:
+                res["bam_content"] = f.read()
         elif with_mapper_caches == "annotation":
             # FASTQ mode: the aligner step asks for the junction BED of the annotation (cached one or a fresh export) and reads it
             import src.read_mapper as RM
@@ -222,6 +251,23 @@ def scenario(name):
             v.files[CFG + "/index_config.json"].content = json.dumps({V + "data/ref1.fa": {
                 "index_filename": idx, "reference_mtime": 21.0, "index_mtime": 33.0, "kmer_size": RM.KMER_SIZE["nanopore"]}})
         return [(1, g(1), o(1), True, "index"), (2, g(1), o(2), False, "index")], init
+    if name == "clean-start-rerun-vs-cached-alignment":
+        # the alignment of reads1.fq was made in out1 by an earlier run and is registered; run 1 is a --clean_start rerun in out1
+        # (aligns anew), run 2 (out2) is handed the cached alignment and opens it
+        def init(v):
+            base_init(v, cfg_exists=True)
+            aux = o(1) + "/OUT/aux"
+            v.dirs.add(o(1) + "/OUT")
+            v.dirs.add(aux)
+            bam = aux + "/OUT_reads1_7.bam"
+            v.add(bam, "bam-of:reads1.fq;end", mtime=34.0)
+            v.add(aux + "/OUT_chr1_lock", "", mtime=34.5)
+            key = "%s_aligned_to_%s" % (V + "data/reads1.fq", V + "data/ref1.mmi")
+            v.files[CFG + "/alignment_config.json"].content = json.dumps({key: {
+                "alignment_fpath": bam, "index_mtime": 21.0, "fastq_mtime": 21.0, "bam_mtime": 34.0, "ann_mtime": ""}})
+        return [(1, g(1), o(1), True, "alignment"), (2, g(1), o(2), False, "alignment")], init
+    if name == "alignment-two-fresh":
+        return [(1, g(1), o(1), False, "alignment"), (2, g(1), o(2), False, "alignment")], lambda v: base_init(v, cfg_exists=True)
     if name == "reference-replaced-during-indexing":
         # the reference is replaced by a new assembly while run 1 builds its index; run 2 works on the same path
         return [(1, g(1), o(1), False, "index"), ("editor", V + "data/ref1.fa", "x-new-assembly"), (2, g(1), o(2), False, "index")], \
@@ -311,6 +357,10 @@ def make_check(specs):
                 if r["index_content"] not in ("idx-of:%s;end" % r["ref_start"], "idx-of:%s;end" % r["ref_end"]):
                     out.append(("foreign-or-partial-index", "process %d loads the index %s whose content is %r, expected the complete index of its "
                                 "reference" % (pid, r["index_path"], r["index_content"])))
+            elif mapper == "alignment":
+                if r["bam_content"] != "bam-of:reads1.fq;end":
+                    out.append(("foreign-or-partial-alignment", "process %d reads the alignment %s whose content is %r, expected the complete "
+                                "alignment of its reads" % (pid, r["bam_path"], r["bam_content"])))
             elif mapper == "annotation":
                 if r["bed_content"] not in (expected_bed(r["db_content"]), expected_bed(r["db_content_end"])):
                     out.append(("foreign-or-partial-bed", "process %d hands %s to the aligner whose content is %r, expected the complete export of "
@@ -372,6 +422,8 @@ def run(ctx):
     jobs.append(("bed-rewrite-vs-cached-reader", 3 if quick else 4, 60000 if quick else 400000))
     jobs.append(("index-clean-start-vs-cached", 3 if quick else 4, 60000 if quick else 400000))
     jobs.append(("index-two-fresh", 2 if quick else 3, 60000 if quick else 400000))
+    jobs.append(("clean-start-rerun-vs-cached-alignment", 3 if quick else 4, 60000 if quick else 400000))
+    jobs.append(("alignment-two-fresh", 2 if quick else 3, 60000 if quick else 400000))
     jobs.append(("reference-replaced-during-indexing", 1 if quick else 2, 60000 if quick else 400000))
     jobs.append(("gtf-rewritten-during-conversion", 2 if quick else 3, 60000 if quick else 400000))
     jobs.append(("three-processes", 1 if quick else 2, 60000 if quick else 400000))
